@@ -46,6 +46,10 @@ CHECKS = {
          "Exploration: ~400k generated (grammar, spelling) pairs per configuration (quick); every inter-token gap, escape form, doc comment, leading `|` and redundant parenthesis is chosen independently; the rules read back must equal the abstract rules exactly.",
          "Only grammars that pass validation are in the domain (consume_rules validates). The canonical printer and the speller share the precedence table in the harness; a slip there would show as a false alarm, not a miss.",
          "DESIGN.md section 4, C07"),
+ "C08": ("trace-based oracle: the statement is evaluated over the real run's forest of rule() invocations (cfg trace hook) for generated failing parses and compared with the reported error",
+         "Exploration: ~200k generated grammars (quick), ~3M failing parses; reported position must be the furthest reportable failure, every listed rule must have a matching attempt there, lists strictly sorted, and the expected/unexpected lists must equal the replacement rule's result (exactly, except where a rule matched under negation had rules tried inside it).",
+         "Trusts the trace hook to record rule() invocations faithfully (it is additive and off by default). VM back-end; C02 ties the generated back-end's errors to the VM's.",
+         "DESIGN.md section 4, C08"),
  "C09": ("totality fuzzing of the grammar front-end with token-level mutations of real and generated grammars, truncations and token soup; oracle = returns + located renderable errors",
          "Exploration: ~1M texts (quick) from four sources; every call is wrapped in catch_unwind in a worker process whose death is attributed to the journaled in-flight text; error locations are checked against the text and rendered.",
          "Inputs bounded as stated (4 KiB, nesting 200, repetition-count product 4096). libFuzzer campaigns are not part of the registered commands.",
